@@ -693,7 +693,6 @@ func (e *c03Exec) calls(specs []c03CallSpec, burst bool) {
 	}
 }
 
-
 // c03waiterGivesUp: one check of a block hangs in the network (call L inside the getter), a second
 // caller for the same block gives up while it waits its turn (call W, cancelled), a third one arrives
 // before L has finished (call T). T belongs behind L: whatever it requests must be the coordinates drawn
